@@ -422,7 +422,7 @@ class Interp:
         return self.unit_env
 
     def read(self, name, env):
-        if name == "%this" or name == "this" and self.lang != "python" or name == "self" and env.this is not None and "self" not in env.declared:
+        if name == "%this":
             if env.this is None:
                 e = env
                 while e is not None and e.this is None:
